@@ -5,6 +5,7 @@ import re
 
 import vlib
 from . import c20_json as cj
+from . import chainrun
 
 RCDE_SIGNATURE = "C05-rcde-recovery-byte-ignored"
 
@@ -56,10 +57,19 @@ def run(ctx):
         "library's own signers, 1 / 2 / 3 / 11-12 signers, heights act-1, act, act+1, -1, 0, act+1000, -5, 2^30; mutations: salt at the window "
         "edges +-43199/43200/43201, non-canonical and extreme salts, wrong chain id, swapped RCD/signature, swapped / duplicated pairs, missing / "
         "extra ExtIDs, foreign key, same key twice, RCD-e recovery byte, size errors, RCD type byte, content changed after signing, timestamp "
-        "moved, random bit flips, wrong pair index in the message, unhashed message [+ every single-bit flip of content, every ExtID and the chain "
+        "moved, JSON white space added after signing, random bit flips, wrong pair index in the message, unhashed message [+ every single-bit flip of content, every ExtID and the chain "
         "id of short entries in the thorough tier]; non-trivial = accepted by fat2.NewTransactionBatch")
     ctx.proof_stage(extra_targets=["Corr/Codec.vo"])
     evaluate(ctx)
+    on_chain(ctx)
+
+
+def on_chain(ctx):
+    """The entry-level rule applied where the daemon applies it: ApplyTransactionBlock hands every entry of the
+    block to NewTransactionBatch with the ENTRY's timestamp (block time + minute).  Chain `salts`: transfers whose
+    salts sit minutes inside / outside both ends of the window, in late minutes of their blocks."""
+    seeds = [ctx.seed] if ctx.tier == "quick" else [ctx.seed, ctx.seed + 1, ctx.seed + 2]
+    chainrun.check(ctx, [("salts", sd) for sd in seeds], [1, 6], "C05 which signed entries move balances (salt window on the chain)", functional=True)
 
 
 def evaluate(ctx):
@@ -142,4 +152,8 @@ def search(ctx, why):
     except vlib.ProofBroken:
         return False
     evaluate(ctx)
+    try:
+        on_chain(ctx)
+    except Exception as e:
+        ctx.notes.append("salts chain not evaluated: %r" % (e,))
     return bool(ctx.violations)
